@@ -293,3 +293,46 @@ class STuple:
 
     def __repr__(self) -> str:
         return f"STuple{tuple(self.items)!r}"
+
+
+
+def eval_lin(x: "Lin", env: t.Dict[Atom, int]) -> t.Optional[int]:
+    """Value of a linear form whose atoms are bit/arith operators over the atoms valued in env (None: not evaluable)."""
+    total = x.const
+    for a, c in x.terms.items():
+        v = eval_atom(a, env)
+        if v is None:
+            return None
+        total += c * v
+    return total
+
+
+def eval_atom(a: Atom, env: t.Dict[Atom, int]) -> t.Optional[int]:
+    if a in env:
+        return env[a]
+    op = a[0]
+    if op in ("bitand", "bitor", "bitxor", "lshift", "rshift", "mul", "floordiv", "modv") and len(a) == 3 and isinstance(a[1], Lin) and isinstance(a[2], Lin):
+        l, r = eval_lin(a[1], env), eval_lin(a[2], env)
+        if l is None or r is None:
+            return None
+        try:
+            return {"bitand": l & r, "bitor": l | r, "bitxor": l ^ r, "lshift": l << r if 0 <= r < 64 else None, "rshift": l >> r if 0 <= r < 64 else None, "mul": l * r, "floordiv": l // r if r else None, "modv": l % r if r else None}[op]
+        except (ValueError, ZeroDivisionError):
+            return None
+    if op == "mod" and len(a) == 3 and isinstance(a[1], int) and isinstance(a[2], Lin):
+        v = eval_lin(a[2], env)
+        return None if v is None else v % a[1]
+    return None
+
+
+def same_on_byte(a: t.Any, b: t.Any, atom: Atom) -> bool:
+    """Do two integer forms over one octet-valued atom agree on all 256 values of the octet?  (finite table)"""
+    if not isinstance(a, Lin) or not isinstance(b, Lin):
+        return False
+    if a == b:
+        return True
+    for v in range(256):
+        x, y = eval_lin(a, {atom: v}), eval_lin(b, {atom: v})
+        if x is None or y is None or x != y:
+            return False
+    return True
